@@ -343,7 +343,9 @@ class C10(Suite):
             x = rng.random()
             allow_q = (not plain) or rng.random() < 0.1
             if x < 0.45 and not seen_bnode:
-                ops.append(self.gen_modify(rng, plain, allow_q))
+                # no GRAPH templates through a plain Graph: the partial effect before the failure
+                # depends on the (unspecified) order in which the engine enumerates the solutions
+                ops.append(self.gen_modify(rng, plain, allow_q and not plain))
                 seen_bnode = tmpl_has_bnode(ops[-1][5])
             elif x < 0.55 and not seen_bnode:
                 ops.append(["delwhere", gen_tmpl(rng, False, allow_q, legal_only=True)])
@@ -442,10 +444,9 @@ class C10(Suite):
                 target = Graph(store=store, identifier=gname(w, default))
         rows = []
         extra = {}
-        for row in target.query("SELECT * WHERE { %s }" % text):
+        for b in target.query("SELECT * WHERE { %s }" % text).bindings:
             mu = []
-            for var in row.labels:
-                v = row[var]
+            for var, v in b.items():
                 if v is not None and str(var) in VAR_ID:
                     mu.append([VAR_ID[str(var)], tid(v, extra)])
             rows.append(sorted(mu))
